@@ -1497,6 +1497,7 @@ func (m *Model) deletesFiles(f *ssa.Function) bool {
 func (m *Model) openCleanupOnlyNew(r *Results, rule string, fn *ssa.Function) {
 	// cells filled from PRAGMA user_version in the open function
 	versCells := map[ssa.Value]bool{}
+	var versScans []*scanCall
 	for _, sc := range m.scanCalls() {
 		if sc.Fn != fn || sc.Site == nil {
 			continue
@@ -1506,8 +1507,47 @@ func (m *Model) openCleanupOnlyNew(r *Results, rule string, fn *ssa.Function) {
 				for _, d := range sc.Dests {
 					versCells[d] = true
 				}
+				versScans = append(versScans, sc)
 			}
 		}
+	}
+	// rawCellSound: a deferred function may take "the version cell is 0" for "the database is new"
+	// only if it cannot run before the version was read successfully: with the success edges of
+	// the read removed, no return of the open function is reachable (otherwise a failed read - the
+	// first statement that touches the file - leaves the cell at its zero value)
+	rawCellSound := func() bool {
+		c := newCut()
+		for _, sc := range versScans {
+			errV := sc.Call.Value()
+			if errV == nil {
+				return false
+			}
+			for _, iff := range allIfs(fn) {
+				cd := condOf(iff)
+				eq, ok := cd.equalEdge()
+				if !ok || !(isNilConst(cd.X) || isNilConst(cd.Y)) {
+					continue
+				}
+				other := cd.X
+				if isNilConst(cd.X) {
+					other = cd.Y
+				}
+				rv, _ := m.resolve(other, topFrame(fn))
+				if stripConv(other) == ssa.Value(errV) || stripConv(rv) == ssa.Value(errV) {
+					c.cutEdge(iff.Block(), eq)
+				}
+			}
+		}
+		if len(c.edges) == 0 {
+			return false
+		}
+		reach := entryReach(fn, c)
+		for _, ret := range returnsOf(fn) {
+			if reach[ret.Block().Index] {
+				return false
+			}
+		}
+		return true
 	}
 	cellOf := func(v ssa.Value, in *ssa.Function) ssa.Value {
 		ld, ok := stripConv(v).(*ssa.UnOp)
@@ -1539,7 +1579,9 @@ func (m *Model) openCleanupOnlyNew(r *Results, rule string, fn *ssa.Function) {
 		default:
 			return false
 		}
-		if c := cellOf(other, in); c == nil || !versCells[c] {
+		if c := cellOf(other, in); c != nil && versCells[c] && in != fn && !rawCellSound() {
+			return false
+		} else if c == nil || !versCells[c] {
 			// not the scanned cell itself: accept a value whose term is the schema version read through
 			// a helper (PRAGMA user_version), as the term engine sees it
 			te := m.newTermEval()
